@@ -145,7 +145,14 @@ func (language *Language) CompilerPasses() compiler.Passes {
 		&compiler.RemoveIntersections{},
 		// members named after operators (`"<"`, `">"`) or names that only differ by case
 		&compiler.EnumMemberIdentifiers{Language: LanguageRef, Identifier: enumMemberIdentifier},
+		// fields whose names only differ by their case or their separators (`user_id`, `userId`)
+		&compiler.StructFieldIdentifiers{Language: LanguageRef, Identifier: structFieldIdentifier},
 	}
+}
+
+// structFieldIdentifier gives the name of the field declared for a struct field.
+func structFieldIdentifier(field ast.StructField) string {
+	return formatFieldName(field.Name)
 }
 
 // enumMemberIdentifier gives the name of the constant declared for an enum member.
